@@ -1,5 +1,6 @@
 """C14 — hazard pointers (include/hazard_pointer.h, src/hazard_pointer.c)."""
 from specs import sched_env, n_cases
+import vlib
 
 # ------------------------------------------------------------------ concurrent protocol runs
 
@@ -159,6 +160,9 @@ def _mpmc_part():
     return p
 
 
+from parts_hpscale import gen_hp_scale, HP_SCALE_PART  # noqa: E402
+
+
 SPEC = {
     "C14": {
         "extra_props": ("Tso",),
@@ -168,6 +172,9 @@ SPEC = {
             # "no structure built on it dereferences a reclaimed node": the structure built on
             # it in this library is the MPMC FIFO (C13's model and poison-read oracle)
             _mpmc_part(),
+            # scale and address patterns of the scan itself (oracle-only part, the real scan run
+            # single-threaded on big configurations)
+            HP_SCALE_PART,
         ],
         "trusted_base": [
             "qsort(plist) with hazard_pointer_compare yields the sorted permutation (libc, trusted)",
